@@ -26,7 +26,7 @@ ASSUMPTIONS = [
     "negative n for head/tail and filter() with no condition are unspecified and excluded",
 ]
 BOUND = {
-    "quick": "rows 0..3; single-key alphabets 'quick' (<= 6 values) for f8,i8,u1,b1,str,U,D,us,obj; two-key frames over {NA,lo,hi}^2 with rows 0..3; all masks/indices/subsets/n/RNG answers",
+    "quick": "size ladder: periodic frames of 17, 129, 1025 rows (thorough also 65537) for f8/str/i8/D keys x unique/drop_na/head/tail/slice/filter; rows 0..3; single-key alphabets 'quick' (<= 6 values) for f8,i8,u1,b1,str,U,D,us,obj; two-key frames over {NA,lo,hi}^2 with rows 0..3; all masks/indices/subsets/n/RNG answers",
     "thorough": "rows 0..4; single-key alphabets 'thorough' (<= 10 values); two-key frames rows 0..4; all masks/indices/subsets/n/RNG answers",
 }
 TIME_CAP = {"quick": 240, "thorough": 3000}
@@ -52,6 +52,10 @@ def shards(tier):
             out.append({"part": "single", "kind": kind, "tier": tier, "n": n, "first": None})
     for k1, k2 in PAIRS:
         out.append({"part": "pair", "k1": k1, "k2": k2, "n": n})
+    # size ladder: periodic frames just above powers of two / ten (a chunked or cached implementation must not care)
+    for kind in ("f8", "str", "i8", "D"):
+        for length in ([17, 129, 1025] if tier == "quick" else [17, 129, 1025, 65537]):
+            out.append({"part": "long", "kind": kind, "length": length})
     return out
 
 
@@ -316,7 +320,30 @@ def check_case(case, rec):
     rec.sample({"cols": cols, "ops": case["ops"][:1] + case["ops"][-1:]})
 
 
+def long_ops(n):
+    ops = unique_ops(["k"]) + [{"op": "drop_na", "cols": ["k"]}, {"op": "drop_na", "cols": ["k", "q"]}]
+    ops += [{"op": "head", "n": m} for m in (None, n - 1, n, n + 1)] + [{"op": "tail", "n": m} for m in (None, 1, n - 1, n + 1)]
+    ops += [{"op": "slice", "rows": [n - 1, 0, n // 2]}, {"op": "slice_off", "rows": [0, n - 1]},
+            {"op": "filter", "mask": [i % 3 == 0 for i in range(n)], "form": "vector"},
+            {"op": "filter_out", "mask": [i % 3 == 0 for i in range(n)], "form": "list"}]
+    return ops
+
+
 def run_shard(shard, rec):
+    if shard["part"] == "long":
+        kind, length = shard["kind"], shard["length"]
+        alpha = V.alphabet(kind, "key")
+        for p in (1, 2, 3):
+            for pat in itertools.product(alpha, repeat=p):
+                # the pattern fills the frame except the last row, which repeats the first key: a late first occurrence / duplicate
+                toks = [pat[i % p] for i in range(length)]
+                late = [alpha[-1]] * (length - 1) + [alpha[0 if alpha[0] is not None else 1]]
+                for t in (toks, late if p == 1 and pat == (alpha[-1],) else None):
+                    if t is None:
+                        continue
+                    cols = [["k", kind, t]] + payload_cols(length)
+                    check_case({"cols": cols, "ops": long_ops(length)}, rec)
+        return
     if shard["part"] == "single":
         kind, tier, n = shard["kind"], shard["tier"], shard["n"]
         alpha = V.alphabet(kind, tier)
